@@ -31,6 +31,10 @@ def plan(tier, seed):
     for feat in FOCUS:
         fam = 'probe:' + feat if feat in opened else 'main'
         cases += [{'family': fam, 'cseed': rnd.randrange(1 << 30), 'want': feat} for _ in range(k)]
+    # hostile names: variables that look like the labels PyRates derives for name clashes (x_v1 next to several x),
+    # node labels equal to variable names
+    n_h = 50 if tier == 'quick' else 1500
+    cases += [{'family': 'hostile_names', 'cseed': rnd.randrange(1 << 30)} for _ in range(n_h)]
     return cases
 
 
@@ -46,6 +50,10 @@ def make_case(case, ctx):
     want = case.get('want')
     for attempt in range(300):
         c4 = {'cseed': rnd.randrange(1 << 30)}
+        if case.get('family') == 'hostile_names':
+            c4.update(pool='derived', hostile_labels=rnd.random() < 0.6)
+            if rnd.random() < 0.6:
+                c4['require'] = 'user_name_like_generated'
         spec, feats, risk = c04.make_spec(c4, ctx['excluded'])
         ref = RefModel(spec)
         vec = rnd.random() < 0.5 if not want else True
